@@ -5,6 +5,15 @@ From AF Require Import Base.Sx Py.Str Fix.Container.
 Import ListNotations.
 Open Scope Z_scope.
 
+(* the methods that can be called on a nested item *)
+Inductive lop :=
+| LSet (t : tag) (v : setval) (replace : bool)
+| LDel (t : tag)
+| LAddGroup (t : tag) (it : ditem) (idx : Z)
+| LSetGroup (t : tag) (l : list ditem)
+| LSetMsgType (s : str)
+| LGet (t : tag) (d : dflt).
+
 Inductive op :=
 | ONew (i : nat) (m : option str) (d : list (tag * dval))      (* v_i = FIXContainer(d) / FIXMessage(m, d) *)
 | OSet (i : nat) (t : tag) (v : setval) (replace : bool)
@@ -23,7 +32,8 @@ Inductive op :=
 | OStr (i : nat)
 | ORepr (i : nat)
 | OSetMsgType (i : nat) (s : str)
-| OItems (i : nat).
+| OItems (i : nat)
+| OAt (i : nat) (path : list pstep) (o : lop).   (* a method called on an item reached through the accessors *)
 
 Inductive outcome :=
 | RNone
@@ -38,13 +48,6 @@ Inductive outcome :=
 
 Definition pool := list container.
 
-Fixpoint set_nth {A} (n : nat) (x : A) (l : list A) : list A :=
-  match n, l with
-  | O, _ :: l' => x :: l'
-  | S n', y :: l' => y :: set_nth n' x l'
-  | _, [] => []
-  end.
-
 Definition var (p : pool) (i : nat) : container := nth i p empty.
 
 Definition of_unit (r : res unit) : outcome := match r with Ok _ => RNone | Exc e => RExc e end.
@@ -58,6 +61,19 @@ Definition store (p : pool) (dst : option nat) (r : res container) : pool :=
 (* what the harness shows of a value returned by items(): str(value) *)
 Definition item_text (v : value) : str :=
   match v with VCls _ text => text | _ => render_v v end.
+
+Definition set_msg_type (s : str) (c : container) : container :=
+  match c with C (Some _) l => C (Some s) l | C None _ => c end.
+
+Definition apply_lop (p : pool) (o : lop) (x : container) : container * outcome :=
+  match o with
+  | LSet t v r => let (c, e) := c_set t v r x in (c, of_unit e)
+  | LDel t => let (c, e) := c_del t x in (c, of_unit e)
+  | LAddGroup t it idx => let (c, e) := c_add_group t (conv_item p it) idx x in (c, of_unit e)
+  | LSetGroup t l => let (c, e) := c_set_group t (mapM (conv_item p) l) x in (c, of_unit e)
+  | LSetMsgType s => (set_msg_type s x, RNone)
+  | LGet t d => (x, match c_get t d x with Ok r => RVal r | Exc e => RExc e end)
+  end.
 
 Definition step (p : pool) (o : op) : pool * outcome :=
   match o with
@@ -94,6 +110,9 @@ Definition step (p : pool) (o : op) : pool * outcome :=
        | C None _ => p
        end, RNone)
   | OItems i => (p, RItems (map (fun kv => (fst kv, item_text (snd kv))) (items (var p i))))
+  | OAt i path o =>
+      let (c, r) := at_path path (apply_lop p o) (var p i) in
+      (set_nth i c p, match r with Ok r => r | Exc e => RExc e end)
   end.
 
 Definition op_var (o : op) : nat :=
@@ -101,7 +120,7 @@ Definition op_var (o : op) : nat :=
   | ONew i _ _ | OSet i _ _ _ | OGet i _ _ | ODel i _ | OContains i _ | OIsGroup i _
   | OAddGroup i _ _ _ | OSetGroup i _ _ | OGroupList i _ | OGroupByTag i _ _ _ _
   | OGroupByIndex i _ _ _ | OQuery i _ | OEq i _ | OEqDict i _ | OStr i | ORepr i
-  | OSetMsgType i _ | OItems i => i
+  | OSetMsgType i _ | OItems i | OAt i _ _ => i
   end.
 
 Definition init (n : nat) : pool := repeat empty n.
@@ -223,8 +242,39 @@ Definition get_pair (s : sx) : option (tag * str) :=
   | _ => None
   end.
 
+Definition get_pstep (s : sx) : option pstep :=
+  match s with
+  | SL [SI 0; t; SI idx] => option_map (fun t => SIdx t idx) (get_tag t)
+  | SL [SI 1; t; gt; gv] =>
+      match get_tag t, get_tag gt, get_str gv with
+      | Some t, Some gt, Some gv => Some (STag t gt gv) | _, _, _ => None end
+  | SL [SI 2; t; SI n] => option_map (fun t => SList t n) (get_tag t)
+  | _ => None
+  end.
+
+Definition get_lop (s : sx) : option lop :=
+  match s with
+  | SL [SI 0; t; v; r] =>
+      match get_tag t, get_setval v, get_bool r with
+      | Some t, Some v, Some r => Some (LSet t v r) | _, _, _ => None end
+  | SL [SI 1; t] => option_map LDel (get_tag t)
+  | SL [SI 2; t; it; SI idx] =>
+      match get_tag t, get_ditem FUEL it with
+      | Some t, Some it => Some (LAddGroup t it idx) | _, _ => None end
+  | SL [SI 3; t; SL l] =>
+      match get_tag t, opt_all (map (get_ditem FUEL) l) with
+      | Some t, Some l => Some (LSetGroup t l) | _, _ => None end
+  | SL [SI 4; s] => option_map LSetMsgType (get_str s)
+  | SL [SI 5; t; d] =>
+      match get_tag t, get_dflt d with Some t, Some d => Some (LGet t d) | _, _ => None end
+  | _ => None
+  end.
+
 Definition get_op (s : sx) : option op :=
   match s with
+  | SL [SI 18; i; path; o] =>
+      match get_nat i, get_list get_pstep path, get_lop o with
+      | Some i, Some path, Some o => Some (OAt i path o) | _, _, _ => None end
   | SL [SI 0; i; m; d] =>
       match get_nat i, get_opt get_str m, get_dict d with
       | Some i, Some m, Some d => Some (ONew i m d) | _, _, _ => None end
